@@ -878,6 +878,8 @@ func c03OneOperation(c *Ctx) {
 		decl := c.P.Decls[as]
 		info := c.P.DeclPkg[as].TypesInfo
 		n := 0
+		slotOf := map[string]string{}
+		defaultSlot := ""
 		ast.Inspect(decl.Body, func(nd ast.Node) bool {
 			cc, ok := nd.(*ast.CaseClause)
 			if !ok {
@@ -892,6 +894,7 @@ func c03OneOperation(c *Ctx) {
 				}
 			}
 			if cc.List == nil {
+				defaultSlot = slot
 				r.Check(slot == "Post", "R03d", "slot switch default is POST", c.P.Pos(cc.Pos()), "the default arm assigns slot "+slot+", the defaulting verb everywhere else is POST")
 				return true
 			}
@@ -899,13 +902,25 @@ func c03OneOperation(c *Ctx) {
 				if tv, ok := info.Types[e]; ok && tv.Value != nil {
 					v := strings.Trim(tv.Value.ExactString(), `"`)
 					n++
+					slotOf[strings.ToLower(v)] = slot
 					r.Check(strings.EqualFold(v, slot), "R03d", "slot switch arm "+v, c.P.Pos(cc.Pos()),
 						fmt.Sprintf("verb %q is stored in the %s slot of the path item", v, slot))
 				}
 			}
 			return true
 		})
-		r.Check(n == 5, "R03d", "slot switch covers the five verbs", c.P.Pos(decl.Pos()), fmt.Sprintf("the slot switch has %d verb arms", n))
+		// every one of the five verbs lands in the slot of its own name, through its own arm or through the default arm
+		var wrong []string
+		for _, v := range []string{"get", "post", "put", "delete", "patch"} {
+			slot, ok := slotOf[v]
+			if !ok {
+				slot = defaultSlot
+			}
+			if !strings.EqualFold(slot, v) {
+				wrong = append(wrong, fmt.Sprintf("%s→%q", v, slot))
+			}
+		}
+		r.Check(len(wrong) == 0, "R03d", "slot switch covers the five verbs", c.P.Pos(decl.Pos()), fmt.Sprintf("the slot switch (%d verb arms, default %q) stores %v", n, defaultSlot, wrong))
 	} else {
 		r.Unres("R03d", "assignOperationToPathItem", "", "not found")
 	}
